@@ -3,6 +3,8 @@
 (* M2/M3 for C19.  One event per (intent value, host expression):          *)
 (*  [s          the value as character classes                             *)
 (*   dangling   1: a $name of the value has no matching arg below the host *)
+(*   refPlaces  where the arg of each resolvable $name sits (Placements of  *)
+(*              Intent.tla)                                                *)
 (*   known      1: the head is a concept some rule file knows              *)
 (*   setOk      set_mathml accepted the expression with the attribute      *)
 (*   ignoreRes, errorRes   "ok" | "err" | "panic" of get_spoken_text under *)
@@ -17,15 +19,16 @@
 EXTENDS Intent, IOUtils
 Rec == ndJsonDeserialize(IOEnv.TRACE)
 VARIABLE l
+Dangling(e) == e.dangling = 1 \/ \E i \in 1..Len(e.refPlaces) : ~InScope(e.refPlaces[i])
 Reason(e) ==
   IF e.setOk = 0 THEN "intent-value-makes-set_mathml-fail"
   ELSE IF e.ignoreRes # "ok" THEN "speech-fails-although-intent-errors-are-to-be-ignored"
   ELSE IF e.errorRes = "panic" THEN "panic-in-error-mode"
   ELSE IF e.errorRes = "err" /\ e.ignoreIsPlain = 0 THEN "ignored-intent-changes-the-speech"
   ELSE IF e.errorRes = "ok" /\ e.bothEqual = 0 THEN "modes-disagree-on-an-accepted-intent"
-  ELSE IF (ClearlyIllegal(e.s) \/ (e.dangling = 1 /\ Legal(e.s, FALSE))) /\ e.errorRes = "ok" THEN "illegal-intent-not-reported-in-error-mode"
-  ELSE IF ClearlyLegalSimple(e.s) /\ e.dangling = 0 /\ e.known = 0 /\ e.errorRes # "ok" THEN "legal-intent-rejected"
-  ELSE IF ClearlyLegalSimple(e.s) /\ e.dangling = 0 /\ e.known = 0 /\ e.mentions = 0 THEN "legal-intent-not-honoured"
+  ELSE IF (ClearlyIllegal(e.s) \/ (Dangling(e) /\ Legal(e.s, FALSE))) /\ e.errorRes = "ok" THEN "illegal-intent-not-reported-in-error-mode"
+  ELSE IF ClearlyLegalSimple(e.s) /\ ~Dangling(e) /\ e.known = 0 /\ e.errorRes # "ok" THEN "legal-intent-rejected"
+  ELSE IF ClearlyLegalSimple(e.s) /\ ~Dangling(e) /\ e.known = 0 /\ e.mentions = 0 THEN "legal-intent-not-honoured"
   ELSE IF e.pure = 0 THEN "speaking-changed-the-expression"
   ELSE "ok"
 TInit == l = 1 /\ str = <<>>
